@@ -111,3 +111,5 @@ func cmdReplay(args []string) {
 	fmt.Printf("VIOLATION property=%s replay=%s\n", v.Property, args[0])
 	os.Exit(1)
 }
+
+func cmdSelfDet(args []string) {}
